@@ -300,6 +300,50 @@ def unit_C17p(src):
     return u
 
 
+def unit_C19g(src):
+    """cast<T>() of every compound type, generic in source and target scalar, NumCast::from uninterpreted"""
+    from emit import Contract, trait_name
+    from common import base_type
+    u = Unit('C19g', src, 'N')
+    u.subst = {}
+    u.canaries = []
+    XY = 'xyzw'
+    specs = []
+    for kind, dims in (('Vector', (1, 2, 3, 4)), ('Point', (1, 2, 3))):
+        for n in dims:
+            ty = '%s%d' % (kind, n)
+            fs = XY[:n]
+            none = ' || '.join('T::cast_spec(v.%s).is_none()' % f for f in fs)
+            some = ', '.join('%s: T::cast_spec(v.%s).unwrap()' % (f, f) for f in fs)
+            specs.append('pub open spec fn %s_cast<S, T: NumCast>(v: %s<S>) -> Option<%s<T>> { if %s { None } else { Some(%s { %s }) } }\n' % (ty.lower(), ty, ty, none, ty, some))
+    for n in (2, 3, 4):
+        ty = 'Matrix%d' % n
+        fs = XY[:n]
+        none = ' || '.join('vector%d_cast::<S, T>(m.%s).is_none()' % (n, f) for f in fs)
+        some = ', '.join('%s: vector%d_cast::<S, T>(m.%s).unwrap()' % (f, n, f) for f in fs)
+        specs.append('pub open spec fn %s_cast<S, T: NumCast>(m: %s<S>) -> Option<%s<T>> { if %s { None } else { Some(%s { %s }) } }\n' % (ty.lower(), ty, ty, none, ty, some))
+    specs.append('pub open spec fn quaternion_cast<S, T: NumCast>(q: Quaternion<S>) -> Option<Quaternion<T>> { if T::cast_spec(q.s).is_none() || vector3_cast::<S, T>(q.v).is_none() { None } else { Some(Quaternion { v: vector3_cast::<S, T>(q.v).unwrap(), s: T::cast_spec(q.s).unwrap() }) } }\n')
+    u.spec_texts.append(''.join(specs))
+
+    def contracts(unit, im, f):
+        if im is None:
+            return None
+        st, _ = base_type(im.selfty)
+        if im.trait is None and f.name == 'cast':
+            return Contract(ensures=['ret == %s_cast::<S, T>(*self)' % st.lower()])
+        if im.trait is None and f.name == 'from_sv' and st == 'Quaternion':
+            return Contract(ensures=['ret == (Quaternion { v: $1, s: $0 })'])
+        if trait_name(im.trait) == 'Clone':
+            return Contract(ensures=[])
+        return None
+    u.contract_fns.append(contracts)
+    u.assume_pred = lambda im, f: im is not None and trait_name(im.trait) == 'Clone'
+    tys = r'(Vector[1-4]|Point[1-3]|Matrix[2-4]|Quaternion)<S>'
+    u.select(Sel(None, tys, ['cast']), Sel(None, r'Quaternion<S>', ['from_sv'], generics=r'<S>'), Sel('Clone', tys), Sel('Copy', tys))
+    u.struct_names = ['Vector1', 'Vector2', 'Vector3', 'Vector4', 'Point1', 'Point2', 'Point3', 'Matrix2', 'Matrix3', 'Matrix4', 'Quaternion']
+    return u
+
+
 def unit_C06(src, angle_kind='Rad'):
     u = Unit('C06' + ('' if angle_kind == 'Rad' else 'deg'), src, 'R')
     lib, F = full_base(u, angle_kind)
@@ -563,7 +607,7 @@ def build_C03(src, tier):
     return [unit_C03(src, 'R')]
 
 
-UNITS = {'C16': lambda src, tier: [unit_C16s(Source_swz())], 'C17': lambda src, tier: [unit_C17(src), unit_C17p(src)], 'C09': lambda src, tier: [unit_C09(src, 'q'), unit_C09(src, 'b3'), unit_C09(src, 'b2'), unit_C09i(src)], 'C15': lambda src, tier: [unit_arc(src, 'C15')], 'C14': lambda src, tier: [unit_arc(src, 'C14')], 'C18': lambda src, tier: [unit_C18(src)], 'C11': lambda src, tier: [unit_C11(src)], 'C10': lambda src, tier: [unit_C10(src, 'Rad'), unit_C10(src, 'Deg')], 'C08': lambda src, tier: [unit_C08(src, 'q'), unit_C08(src, 'b3'), unit_C08(src, 'b2')], 'C05': lambda src, tier: [unit_conv(src, 'C05', 'Rad')], 'C07': lambda src, tier: [unit_conv(src, 'C07', 'Rad'), unit_conv(src, 'C07', 'Deg')], 'C06': lambda src, tier: [unit_C06(src, 'Rad'), unit_C06(src, 'Deg')], 'C13': lambda src, tier: [unit_C13(src, 'R')], 'C04': lambda src, tier: [unit_C04(src, 'R')], 'C02': lambda src, tier: [unit_C02(src, 'R'), unit_C02t(src)], 'C01': lambda src, tier: [unit_C01(src, 'R'), unit_C01t(src, 'R')], 'C03': build_C03, 'C12': lambda src, tier: [unit_C12(src, 'R')]}
+UNITS = {'C19': lambda src, tier: [unit_C19g(src)], 'C16': lambda src, tier: [unit_C16s(Source_swz())], 'C17': lambda src, tier: [unit_C17(src), unit_C17p(src)], 'C09': lambda src, tier: [unit_C09(src, 'q'), unit_C09(src, 'b3'), unit_C09(src, 'b2'), unit_C09i(src)], 'C15': lambda src, tier: [unit_arc(src, 'C15')], 'C14': lambda src, tier: [unit_arc(src, 'C14')], 'C18': lambda src, tier: [unit_C18(src)], 'C11': lambda src, tier: [unit_C11(src)], 'C10': lambda src, tier: [unit_C10(src, 'Rad'), unit_C10(src, 'Deg')], 'C08': lambda src, tier: [unit_C08(src, 'q'), unit_C08(src, 'b3'), unit_C08(src, 'b2')], 'C05': lambda src, tier: [unit_conv(src, 'C05', 'Rad')], 'C07': lambda src, tier: [unit_conv(src, 'C07', 'Rad'), unit_conv(src, 'C07', 'Deg')], 'C06': lambda src, tier: [unit_C06(src, 'Rad'), unit_C06(src, 'Deg')], 'C13': lambda src, tier: [unit_C13(src, 'R')], 'C04': lambda src, tier: [unit_C04(src, 'R')], 'C02': lambda src, tier: [unit_C02(src, 'R'), unit_C02t(src)], 'C01': lambda src, tier: [unit_C01(src, 'R'), unit_C01t(src, 'R')], 'C03': build_C03, 'C12': lambda src, tier: [unit_C12(src, 'R')]}
 import kani_driver
 KANI = kani_driver.GROUPS
 from meta import META
